@@ -236,6 +236,12 @@ def grid(ctx):
         for name, o, countries in presets:
             for iso in isos:
                 jobs.append((iso, name, o))
+        for name, o, countries in presets:   # horizon variations of the shipped simulations, designated countries and a sample of others
+            if name.startswith("yaml:"):
+                for iso in list(countries[:3]) + ctx.rng.sample(isos, 5):
+                    if iso in isos:
+                        for nm_ in (24, 48, 60, 84, 108):
+                            jobs.append((iso, "%s+NMONTHS=%d" % (name, nm_), dict(o, NMONTHS=nm_)))
         from lib import lpcheck as _lp
         pw = pipeline.pairwise_sets(_lp.OPTION_SPACE, ctx.rng, base=pipeline.BASE_OPTIONS)
         for iso in ctx.rng.sample(isos, 8):
